@@ -131,6 +131,16 @@ CLAIMED = {
         "trusted: TLC, exactness of linear interpolation on affine fields inside the hull; convergence for large k not decided",
         "DESIGN.md 3 C11",
     ),
+    "C12": (
+        "spec/Deriv.tla, spec/MC_Deriv.tla",
+        "polynomial vector fields of degree <= 2 with exact analytic Jacobian, Hessian, divergence, curl and det(I+J) in TLA+; TLC checks that "
+        "every finite-difference stencil is exact on its exact index set; flow_derivatives in all 7 schemes, key subsets, mixed-derivative "
+        "symmetry, jacobian_dict/matrix/det, divergence and curl are compared with the analytic values",
+        "2-D/3-D shapes, isotropic and anisotropic spacing given as scalar / per axis / per batch item, affine and quadratic fields, batch of 2; "
+        "first derivatives on the full exact set of each scheme, second derivatives and assembled quantities at interior probes",
+        "trusted: TLC; border samples of the one-sided schemes are exempt as the property says",
+        "DESIGN.md 3 C12",
+    ),
     "C13": (
         "spec/Flow.tla (section C13), spec/MC_Flow.tla",
         "exact affine algebra: composition (A+B+BA, a+b+Ba), Lie bracket with explicit derivative units, BCH truncations 0..5 (Jacobi "
